@@ -676,3 +676,76 @@ def _all_functions(m):
         out.extend(c.methods.values())
         out.extend(c.setters.values())
     return out
+
+
+def flag_after_reset_problems(repo, flag='association_established'):
+    """The association's ``association_established`` flag is cleared by kill() (and by everything that ends in it: abort(),
+    release()): a test of the flag that can only be reached after such a call on the same object reads False whatever the state
+    was before -- a decision taken on it ("was the association in use?") is always the same.  Read off the statement lists of the
+    functions that end associations: a statement that calls a clearing method on X on every path (directly, or an ``if`` whose
+    branches all do), followed -- in the same list -- by a load of ``X.<flag>``.  -> (problems, functions examined)"""
+    probs: List[str] = []
+    asce = repo.module('asceprovider')
+    clearing = set()
+    for c in asce.classes.values():
+        for name, f in c.methods.items():
+            if any(isinstance(n, ast.Assign) and len(n.targets) == 1 and isinstance(n.targets[0], ast.Attribute)
+                   and n.targets[0].attr == flag and isinstance(n.value, ast.Constant) and n.value.value is False
+                   for n in ast.walk(f.node)):
+                clearing.add(name)
+    # methods that call a clearing method of self unconditionally (top-level statement of their body)
+    changed = True
+    while changed:
+        changed = False
+        for c in asce.classes.values():
+            for name, f in c.methods.items():
+                if name in clearing:
+                    continue
+                for st in f.node.body:
+                    if isinstance(st, ast.Expr) and isinstance(st.value, ast.Call) and isinstance(st.value.func, ast.Attribute) \
+                            and isinstance(st.value.func.value, ast.Name) and st.value.func.value.id == 'self' and st.value.func.attr in clearing:
+                        clearing.add(name)
+                        changed = True
+                        break
+    clearing -= {'__init__'}
+
+    def cleared_by(st):
+        """the object whose flag this statement clears on every path through it, or None"""
+        if isinstance(st, ast.Expr) and isinstance(st.value, ast.Call) and isinstance(st.value.func, ast.Attribute) \
+                and st.value.func.attr in clearing and isinstance(st.value.func.value, ast.Name):
+            return st.value.func.value.id
+        if isinstance(st, ast.If) and st.body and st.orelse:
+            a = {cleared_by(x) for x in st.body} - {None}
+            b = {cleared_by(x) for x in st.orelse} - {None}
+            both = a & b
+            return sorted(both)[0] if both else None
+        return None
+
+    n = 0
+    for mname in ('applicationentity', 'asceprovider', 'sopclass', '__init__'):
+        m = repo.modules.get(mname)
+        if m is None:
+            continue
+        for fi in _all_functions(m):
+            if fi.cls is not None and fi.cls.module.name == 'asceprovider' and fi.name in clearing:
+                continue
+            n += 1
+            for node in ast.walk(fi.node):
+                for field in ('body', 'orelse', 'finalbody'):
+                    stmts = getattr(node, field, None)
+                    if not isinstance(stmts, list) or not stmts or not isinstance(stmts[0], ast.stmt):
+                        continue
+                    for i, st in enumerate(stmts):
+                        x = cleared_by(st)
+                        if x is None:
+                            continue
+                        for later in stmts[i + 1:]:
+                            if any(isinstance(t, ast.Name) and t.id == x and isinstance(t.ctx, ast.Store) for t in ast.walk(later)):
+                                break
+                            for y in ast.walk(later):
+                                if isinstance(y, ast.Attribute) and y.attr == flag and isinstance(y.ctx, ast.Load) \
+                                        and isinstance(y.value, ast.Name) and y.value.id == x:
+                                    probs.append('%s: %s.%s is read at line %d after the call at line %d that clears it (%s): the test is '
+                                                 'false whatever the association was' % (fi.loc(y), x, flag, y.lineno, st.lineno,
+                                                                                         '/'.join(sorted(clearing))))
+    return sorted(set(probs)), n
